@@ -10,7 +10,7 @@ CHECK = dict(
          "(tag last); at every audit instant the target tag is its old value or the source digest with complete content; layout targets are audited at every "
          "source request and after return. A faulted run is non-trivial when the fault hit after something was written and the copy failed; distinct by "
          "(graph shape, pairing, kind, position).",
-    jobs=[REPLAY, rapid("prop", "TestVerifProp", 1600, 24000, sq=16, st=16)],
+    jobs=[REPLAY, rapid("prop", "TestVerifProp", 2400, 32000, sq=16, st=16)],
     technique="fault injection at every request position of generated image copies (rapid + in-process model registry owning the transport), ordering invariants judged at the instant of each write",
     level_text="Fault enumeration over request positions of generated copies: HTTP errors, resets, truncated and stalled bodies, cancellation and process death at position k; the model registry judges every manifest PUT at the instant it arrives, layout targets are audited from the source side at every request. Interleavings of the per-child goroutines are perturbed by latency plans, not enumerated.",
     level_note="Trusted: regmodel, audit walker. 'Response lost after the final write' is outside the statement and not generated. Referrers/digest-tags the copy defers on loops are not required at the tag-write instant. Process death = state frozen at arrival of request k.",
